@@ -598,16 +598,20 @@ func init() {
 		fmt.Sscan(os.Getenv("VERIF_C11_IDX"), &idx)
 		sp, _ := c11SplitProgram(genProgram(idx, 8).Render(nil))
 		rg := core.NewRng(idx).Sub("C11files")
-		parts := []string{"", "", ""}
-		for _, d := range sp.Decls {
-			parts[rg.Intn(3)] += d + "\n\n"
+		nf := 3
+		if os.Getenv("VERIF_C11_NF") == "2" {
+			nf = 2
+		}
+		parts := make([]string, nf)
+		for _, d := range append([]string{"var gDep2 = gDep + len(gName)", "var gDep = gBig/2 + int(gU8)", "var gName = fmt.Sprint(\"n\", gZero)"}, sp.Decls...) {
+			parts[rg.Intn(nf)] += d + "\n\n"
 		}
 		dir := os.Getenv("VERIF_C11_OUT")
 		os.MkdirAll(dir, 0o755)
 		for k, p := range parts {
 			os.WriteFile(fmt.Sprintf("%s/f%d.go", dir, k), []byte("package main\n\n"+importsFor(sp.Imports, p)+p), 0o644)
 		}
-		os.WriteFile(dir+"/zmain.go", []byte("package main\n\nfunc main() {\n"+strings.Join(sp.Stmts, "\n")+"\n}\n"), 0o644)
+		os.WriteFile(dir+"/zmain.go", []byte("package main\n\nimport \"fmt\"\n\nfunc main() {\n\tfmt.Println(\"deps\", gDep2, gDep, gName)\n"+strings.Join(sp.Stmts, "\n")+"\n}\n"), 0o644)
 		os.WriteFile(dir+"/go.mod", []byte("module ref\n\ngo 1.22\n"), 0o644)
 		os.Exit(0)
 	}
